@@ -46,7 +46,9 @@ def check(run: Run) -> None:
         run.rule(f"C10.{i}", d)
     ctx = TermCtx(m, max_depth=1, opaque={"lookup_type", "remap_by_types"})
     outer = m.find_func("remap_by_types", in_module=mod)
-    classes = [c for c in m.classes.values() if c.parent_func is outer and m.is_transformer(c)]
+    from ..lib import used_visitor
+
+    classes = [used_visitor(m, ctx, outer, True)]
     if len(classes) != 1:
         raise AnalysisError("remap_by_types no longer contains one transformer")
     tt = classes[0]
@@ -105,10 +107,17 @@ def check(run: Run) -> None:
     if vd is None:
         raise AnalysisError("anchor vanished: type_transformer.visit_Dict")
     fvd = ctx.analysis(vd)
-    mds = [c for c in calls_in(vd) if isinstance(c.func, ast.Name) and c.func.id == "make_dataclass"]
-    run.floor("C10.R3", len(mds), 1, "make_dataclass sites")
-    for c in mds:
-        fx = Facts(fvd, c)
+    from ..lib import unit
+
+    md_sites = [(f_, c) for f_ in unit(m, vd) for c in calls_in(f_) if isinstance(c.func, ast.Name) and c.func.id == "make_dataclass"]
+    run.floor("C10.R3", len(md_sites), 1, "make_dataclass sites")
+    for f_, c in md_sites:
+        fx = Facts(ctx.analysis(f_), c)
+        if f_ is not vd:
+            # the guard may sit at the call of the helper inside visit_Dict
+            for c2 in calls_in(vd):
+                if isinstance(c2.func, (ast.Name, ast.Attribute)) and ast.unparse(c2.func).split(".")[-1] == f_.name:
+                    fx.atoms += Facts(fvd, c2).atoms
         ident = kw = uniq = isstr = False
         for a, pol in fx.atoms:
             if not pol:
@@ -196,6 +205,26 @@ def check(run: Run) -> None:
     from .c04 import check_binders
 
     check_binders(run, TermCtx(m, max_depth=2), m, m.find_class("_rewrite_captured_vars", in_module="func_adl.util_ast"), "C10.R7")
+
+    # ---------------- R8: lambda source text is parsed as given
+    run.rule("C10.R8", "the string form of a lambda is parsed as given (only surrounding whitespace stripped): no re-tokenising / whitespace normalisation that would alter string constants")
+    pa = m.find_func("parse_as_ast", in_module="func_adl.util_ast")
+    n_p = 0
+    from ..lib import call_events
+
+    srcp = ("param", pa.pos_params[0])
+    for ev in call_events(TermCtx(m, max_depth=1, opaque={"_parse_source_for_lambda"}), pa, lambda nm: nm == "parse", depth=2):
+        if not ev.args:
+            continue
+        t = ev.args[0]
+        if not contains(t, lambda s_: s_ == srcp):
+            continue
+        if contains(t, lambda s_: s_[0] == "global" and (s_[1].startswith("inspect.") or s_[1].startswith("tokenize."))):
+            continue  # the callable path: source recovered from the file, judged under C03
+        n_p += 1
+        ok = t == srcp or (t[0] == "app" and t[1][0] == "attr" and t[1][2] in ("strip", "lstrip", "rstrip") and t[1][1] == srcp and not t[2])
+        run.check(ok, "C10.R8", ev.owner, stmt_of(ev.call), "source string parsed unchanged (strip only)", f"the lambda's source text is transformed before parsing ({show(t)[:100]}): whitespace inside string constants, keys and keyword values of the lambda is altered, so the emitted lambda differs from the one supplied", "ast.parse(ast_source.strip())", show(t))
+    run.floor("C10.R8", n_p, 1, "parse of the lambda's source string")
 
     # ---------------- R5
     check_env_merge(run, m, "C10.R5")
